@@ -14,7 +14,9 @@ CFG = {
             "signature-component mutations (incl. chain-id shift, S->N-S, the malleated twin), every other signer kind / neighbouring chain id, single-bit "
             "flips of the RLP encoding (all bits for every 12th tx in quick, every 2nd in thorough, a 48-bit sample otherwise), RLP and JSON round trips, malformed JSON spellings per field, JSON inputs with an inconsistent `hash` member (edited / zero / another tx's / removed, "
             "and each signed field edited with the advertised hash kept: Hash() of the decoded object must be the Keccak of its own re-encoding and survive an RLP round trip), "
-            "Sender sequences on ONE object under changing signers (cache), a V x R x S boundary lattice (0, 1, N/2-1, N/2, N/2+1, N-1, N, N+1, 2^256-1, 2^256; "
+            "Sender sequences on ONE object under changing signers (cache), object-lifetime sequences (Hash | Size | Sender, then SignTx / WithSignature with the same or "
+            "another key, chain id, signer kind or arbitrary signature bytes, 1-3 times, then all observations again under the new, the old and a third signer: every "
+            "observation must equal the one on a fresh decode of the object's own encoding), a V x R x S boundary lattice (0, 1, N/2-1, N/2, N/2+1, N-1, N, N+1, 2^256-1, 2^256; "
             "V around 27/28, 35+2c, 2c-19 (negative V'), 255/256, 2^64) under all three signer kinds, MakeSigner on the built-in configs around fork "
             "heights, TxPool.AddRemote and core.ApplyTransaction acceptance of valid / foreign-chain / high-S twins. "
             "Non-trivial = the real code did not answer with an error (distinct inputs counted).",
@@ -26,6 +28,7 @@ CFG = {
             "Transaction.DecodeRLP": "corr (Go vs Model.TxSign.decodeTx on valid encodings and every single-bit flip)",
             "Transaction.MarshalJSON / UnmarshalJSON (gen_tx_json.go, hexutil)": "corr (Go vs jsonOfTx / txOfJson incl. malformed spellings)",
             "types.Sender cache (sigCache, Signer.Equal)": "corr (Go vs senderSeq) + direct judgement against an uncached object",
+            "Transaction.Hash/Size/from caches across WithSignature / SignTx (object lifetime)": "corr (Go vs Model.TxSign.runOps on TxObj) + direct judgement against a fresh decode",
             "types.MakeSigner": "corr on the built-in chain configs",
             "TxPool.AddRemote, core.ApplyTransaction": "direct Spec judgement on the real code"},
     "assumptions": ["secp256k1 ECDSA (crypto.Sign / Ecrecover) and Keccak-256 are parameters of the model (DESIGN.md 2.5); sign_then_sender assumes Ecrecover inverts crypto.Sign and crypto.Sign returns canonical (low-S) values (Ecdsa.SignOK); eip155_high_s_malleable assumes the ECDSA (s,v) <-> (N-s,1-v) symmetry",
@@ -36,7 +39,7 @@ CFG = {
 META = {
     "technique": "Lean 4 proof (signed-payload injectivity from the RLP theorems, V/R/S arithmetic for unbounded chain ids, cache transparency, RLP/JSON round trips; ECDSA and Keccak uninterpreted) tied to core/types by differential correspondence",
     "text": "Theorems sighash_injective, sign_then_sender (every chain id != 0, V of any size), eip155_rejects_foreign_chain, eip155_sender_only_own_chain, "
-            "sender_only_if_valid_vrs, homestead_rejects_high_s, cache_transparent, hash_sender_stable_under_reencoding, rlp_decode_canonical, json_roundtrip, "
+            "sender_only_if_valid_vrs, homestead_rejects_high_s, cache_transparent, senderCached_sound, withSignature_clears_caches, object_lifetime_transparent, hash_sender_stable_under_reencoding, rlp_decode_canonical, json_roundtrip, "
             "json_accepts_sender_ok, unforgeable_partial (reduction to ECDSA forgery / Keccak collision), makeSigner_spec hold in the Lean model of the signers; "
             "eip155_high_s_malleable / eip155_accepts_high_s_witness prove that the EIP-155 signer does NOT reject high-S signatures of protected transactions "
             "(known finding, reproduced through types.Sender, TxPool.AddRemote and core.ApplyTransaction). Every run re-checks the proofs and runs the real code "
